@@ -28,7 +28,7 @@ def regex_accepts(wr, text):
     return any(r.fullmatch(text) for r in wr._include) and not any(r.fullmatch(text) for r in (wr._exclude or ()))
 
 
-def equal(wr1, wr2, is_bytes=False, nonempty_only=True, conform=True, fallback_len=5):
+def equal(wr1, wr2, is_bytes=False, nonempty_only=True, conform=True, fallback_len=5, apply_check=True):
     """Decide L(wr1) == L(wr2) on all (non-empty) names.  Returns Cmp; .witness is a shortest differing name."""
     r = Cmp()
     w1, w2 = impl.wcregexp(wr1), impl.wcregexp(wr2)
@@ -61,6 +61,30 @@ def equal(wr1, wr2, is_bytes=False, nonempty_only=True, conform=True, fallback_l
         tag, w, accs = min(bad, key=lambda b: (len(b[1]), b[1]))
         r.witness = alphabet.to_text(w, al, is_bytes)
         r.accs = accs
+        return r
+    if conform and apply_check:
+        # the matcher *objects* apply their regex lists as "some inclusion matches the whole name and no exclusion
+        # matches the whole name": every witness, and every witness followed by a newline (the one place where
+        # match() and fullmatch() of a `$`-terminated regex differ), through the public .match()
+        nl = b'\n' if is_bytes else '\n'
+        for P, w in seen.items():
+            if not w:
+                continue
+            t0 = alphabet.to_text(w, al, is_bytes)
+            for t in (t0, t0 + nl):
+                truth = (regex_accepts(w1, t), regex_accepts(w2, t))
+                r.traces += 2
+                try:
+                    real = (real_accepts(wr1, t), real_accepts(wr2, t))
+                except Exception:  # noqa: BLE001 - callers that pass special objects
+                    return r
+                if real != truth:
+                    r.mode = 'application'
+                    r.witness = t
+                    r.accs = (real[0], truth[1]) if real[0] != truth[0] else (truth[0], real[1])
+                    if r.accs[0] == r.accs[1]:
+                        r.accs = (real[0], truth[0]) if real[0] != truth[0] else (truth[1], real[1])
+                    return r
     return r
 
 
